@@ -64,7 +64,10 @@ def short_id(n):
 
 SPECIAL_NAMES = ([short_id(i) for i in range(0, 60)] + [short_id(i) for i in (26, 27, 52, 675, 676, 677, 702, 703)] +
                  [b'endx', b'_if', b'nilly', b'do_', b'ifx', b'ands', b'\x8ex', b'x\x97', b'\x80', b'\xff\xfe',
-                  b'_', b'__', b'_a', b'A', b'Ab', b'a1', b'a_'])
+                  b'_', b'__', b'_a', b'A', b'Ab', b'a1', b'a_',
+                  # glyph names whose bytes coincide with the byte-order marks of Unicode text files
+                  b'\xef\xbb\xbfx', b'\xef\xbb\xbf', b'\xff\xfey', b'\xefmato', b'\xbb\xbfz'])
+SIGNATURE_NAMES = SPECIAL_NAMES[-5:]
 
 
 def gen_names(ch, n):
@@ -153,10 +156,25 @@ def gen_keep(ch, names):
     for nm in (b'print', b'spr', b'zz_absent', b'another_absent_name'):
         if ch.chance(60):
             keep.add(nm)
+    for nm in SIGNATURE_NAMES:
+        if ch.chance(50):
+            keep.add(nm)
     nl = b'\r\n' if ch.chance(60) else b'\n'
     if ch.chance(100):
         lines.append(b'# keep these')
-    for nm in sorted(keep):
+    # the order of a keep file carries no meaning: sorted, rotated, or a glyph name first
+    order = sorted(keep)
+    if order and ch.chance(128):
+        k = ch.below(len(order))
+        order = order[k:] + order[:k]
+    high = [nm for nm in order if nm[0] >= 0x80]
+    used_sig = [nm for nm in high if nm[0] in (0xef, 0xbb, 0xbf, 0xff, 0xfe) and nm in names]
+    if high and ch.chance(100):
+        pool = used_sig if (used_sig and ch.chance(180)) else high
+        first = pool[ch.below(len(pool))]
+        order.remove(first)
+        order.insert(0, first)
+    for nm in order:
         lines.append(ch.pick([b'', b'', b' ', b'\t ']) + nm + ch.pick([b'', b'', b' ', b'\t']))
         if ch.chance(30):
             lines.append(b'')
@@ -338,6 +356,10 @@ def part_populations(ctx):
             labs.append('population>=703')
         if config == 'keep_file' and any(k in keep for k in SPECIAL_NAMES[:60]):
             labs.append('keepfile_has_would_be_id')
+        if config == 'keep_file' and keep_body.lstrip()[:1] >= b'\x80':
+            labs.append('keepfile_starts_with_glyph_name')
+            if keep_body.lstrip()[:1] in (b'\xef', b'\xbb', b'\xbf', b'\xff', b'\xfe') and parse_keep(keep_body.split(b'\n')[0].rstrip(b'\r')) & set(names):
+                labs.append('keepfile_starts_with_used_signature_name')
         if any(i in reserved() for i in fwd):
             labs.append('uses_builtin')
         ctx.stats.case(src + config.encode() + keep_body, renamed >= 2 and preserved >= 1,
@@ -345,6 +367,33 @@ def part_populations(ctx):
                         'keep_file': show(keep_body, 60)}, labs)
     ctx.hyp('populations', st.binary(min_size=3000, max_size=3000), body, max_examples=120 if ctx.quick else 1200,
             shrink=not ctx.quick)   # programs of thousands of names shrink for minutes; the quick tier reports as found
+
+
+def part_keepfiles(ctx):
+    """Keep-file shapes, systematically: each notable name as the first / only / last line, with LF and CR LF, with and
+    without a final newline, after a blank line or a comment line."""
+    notable = SIGNATURE_NAMES + [b'\x80', b'\xff\xfe', b'a', b'_', b'ba', b'x\x97']
+    k = 0
+    for first in notable:
+        for others in ((), (b'score',), (b'zz_absent', b'score', b'b')):
+            for nl in (b'\n', b'\r\n'):
+                for lead in (b'', nl, b'# names' + nl, b' '):
+                    for final in (True, False):
+                        k += 1
+                        if k % ctx.nshards != ctx.shard:
+                            continue
+                        lines = [first] + list(others)
+                        if others and k % 3 == 0:
+                            lines = list(others) + [first]
+                        body = lead + nl.join(lines) + (nl if final else b'')
+                        keep = set(lines)
+                        names = [first, b'score', b'b', b'lives'] + [b'filler%d' % i for i in range(30)]
+                        src = b''.join(nm + b'=' + names[(i + 1) % len(names)] + b'\n' for i, nm in enumerate(names))
+                        src += b'print(' + first + b'.' + first + b')\n'
+                        case = {'source': src, 'config': 'keep_file', 'keep': body, 'via': 'lib'}
+                        run(src, 'keep_file', body, keep, 'lib', case)
+                        ctx.stats.case(b'kf' + body, True, {'keep_file': show(body, 60)} if k % 40 == 1 else None,
+                                       ['keepfile_shape'])
 
 
 def part_ids(ctx):
@@ -374,8 +423,8 @@ def part_ids(ctx):
 
 def parts(tier):
     if tier == 'quick':
-        return [('populations', part_populations, 10), ('ids', part_ids, 4)]
-    return [('populations', part_populations, 12), ('ids', part_ids, 4)]
+        return [('populations', part_populations, 10), ('ids', part_ids, 4), ('keepfiles', part_keepfiles, 2)]
+    return [('populations', part_populations, 11), ('ids', part_ids, 3), ('keepfiles', part_keepfiles, 2)]
 
 
 def replay(case):
@@ -393,7 +442,7 @@ def replay(case):
 def vacuity(total, tier):
     msgs = []
     for lab in ('population>=27', 'population>=703', 'keepfile_has_would_be_id', 'uses_builtin', 'cfg_keep_all',
-                'via_luamin', 'via_build', 'via_luamin_two'):
+                'via_luamin', 'via_build', 'via_luamin_two', 'keepfile_starts_with_glyph_name', 'keepfile_shape'):
         if total.classes.get(lab, 0) < 2:
             msgs.append('class %s seen %d times' % (lab, total.classes.get(lab, 0)))
     return msgs
